@@ -1,3 +1,5 @@
 /- Aggregate: C04/C14 primitive refinement theorems (C04.lean) and the lift to histories (C04Hist.lean). -/
 import AJ.Props.C04
 import AJ.Props.C04Hist
+import AJ.Props.C04Rem
+import AJ.Props.C04Copy
